@@ -9,6 +9,7 @@ import (
 	"github.com/llir/llvm/ir"
 	"github.com/llir/llvm/ir/constant"
 	"github.com/llir/llvm/ir/types"
+	"github.com/llir/llvm/ir/value"
 )
 
 // histRun replays an editing history on the real API. Tokens: i<pos>:u|n|s  r<pos>  n<pos>:0|1  p  q
@@ -95,157 +96,194 @@ func histRun(toks []string, withObservers bool) []string {
 	return outs
 }
 
-// fieldHistory: construct an object, edit a field that feeds a lazily cached type AFTER construction, use the object as a typed
-// operand and print. With observers, pure queries (Type, String, Ident, LLString) are made between construction and the edit.
-func fieldHistory(kind string, observers bool) string {
+// fieldHistory: construct an object, edit fields that feed a lazily cached type AFTER construction (a SEQUENCE of edits, e.g. address space
+// 5, then 0 again), use the object as a typed operand and print. With observers, pure queries (Type, String, Ident, LLString) are made after
+// construction and after every edit but the last.
+func fieldHistory(kind string, seq []int, observers bool) string {
 	m := ir.NewModule()
 	user := m.NewFunc("user", types.Void)
 	ub := user.NewBlock("entry")
-	observe := func(v interface {
+	type typed interface {
 		Type() types.Type
 		String() string
 		Ident() string
-	}) {
+	}
+	var objs []typed
+	observe := func() {
 		if observers {
-			_ = v.Type()
-			_ = v.String()
-			_ = v.Ident()
-			_ = v.Type().String()
+			for _, v := range objs {
+				_ = v.Type()
+				_ = v.String()
+				_ = v.Ident()
+				_ = v.Type().String()
+			}
+			if ub.Term != nil {
+				_ = m.String()
+			}
 		}
 	}
+	var edits []func()
+	use := func() {}
+	early := false
 	switch kind {
 	case "func-addrspace":
 		f := m.NewFunc("handler", types.Void)
-		observe(f)
-		f.AddrSpace = 1
-		ub.NewICmp(1, f, f)
+		objs = append(objs, f)
+		edits = []func(){func() { f.AddrSpace = 1 }, func() { f.AddrSpace = 0 }, func() { f.AddrSpace = 2 }}
+		use = func() { ub.NewICmp(1, f, f) }
 	case "func-sig":
 		f := m.NewFunc("handler", types.Void)
-		observe(f)
-		f.Sig.Variadic = true
-		ub.NewICmp(1, f, f)
+		objs = append(objs, f)
+		edits = []func(){func() { f.Sig.Variadic = true }, func() { f.Sig.Variadic = false }, func() { f.Sig.RetType = types.I32 }}
+		use = func() { ub.NewICmp(1, f, f) }
 	case "global-addrspace":
 		g := m.NewGlobalDef("g", constant.NewInt(types.I32, 0))
-		observe(g)
-		g.AddrSpace = 3
-		ub.NewLoad(types.I32, g)
+		objs = append(objs, g)
+		edits = []func(){func() { g.AddrSpace = 3 }, func() { g.AddrSpace = 0 }, func() { g.AddrSpace = 5 }}
+		use = func() { ub.NewLoad(types.I32, g) }
 	case "global-contenttype":
 		g := m.NewGlobal("g", types.I32)
-		observe(g)
-		g.ContentType = types.I64
-		ub.NewLoad(types.I64, g)
+		objs = append(objs, g)
+		edits = []func(){func() { g.ContentType = types.I64 }, func() { g.ContentType = types.I32 }, func() { g.ContentType = types.I8 }}
+		use = func() { ub.NewLoad(g.ContentType, g) }
 	case "alloca-addrspace":
 		a := ub.NewAlloca(types.I32)
 		a.SetName("slot")
-		observe(a)
-		a.AddrSpace = 5
-		ub.NewStore(constant.NewInt(types.I32, 1), a)
+		objs = append(objs, a)
+		edits = []func(){func() { a.AddrSpace = 5 }, func() { a.AddrSpace = 0 }, func() { a.AddrSpace = 3 }}
+		use = func() { ub.NewStore(constant.NewInt(types.I32, 1), a) }
 	case "alias-aliasee":
 		g := m.NewGlobalDef("g", constant.NewInt(types.I32, 0))
 		h := m.NewGlobalDef("h", constant.NewInt(types.I64, 0))
+		k := m.NewGlobalDef("k", constant.NewInt(types.I8, 0))
 		al := m.NewAlias("al", g)
-		observe(al)
-		al.Aliasee = h
-		ub.NewLoad(types.I64, al)
+		objs = append(objs, al)
+		edits = []func(){func() { al.Aliasee = h }, func() { al.Aliasee = g }, func() { al.Aliasee = k }}
+		use = func() { ub.NewLoad(types.I64, al) }
 	case "param-type":
 		p := ir.NewParam("p", types.I32)
 		f := m.NewFunc("callee", types.Void, p)
-		observe(f)
-		observe(p)
-		p.Typ = types.I64
-		ub.NewCall(f, constant.NewInt(types.I64, 1))
+		objs = append(objs, f, p)
+		edits = []func(){func() { p.Typ = types.I64 }, func() { p.Typ = types.I32 }, func() { p.Typ = types.I8 }}
+		use = func() { ub.NewCall(f, constant.NewInt(types.I64, 1)) }
 	case "invoke-invokee", "call-callee", "callbr-callee":
 		g32 := m.NewFunc("g32", types.I32)
 		g64 := m.NewFunc("g64", types.I64)
+		g8 := m.NewFunc("g8", types.I8)
 		b1, b2 := user.NewBlock("b1"), user.NewBlock("b2")
 		b1.NewRet(nil)
 		b2.NewRet(nil)
+		early = true
 		switch kind {
 		case "invoke-invokee":
 			t := ub.NewInvoke(g32, nil, b1, b2)
 			t.SetName("r")
-			observe(t)
-			t.Invokee = g64
+			objs = append(objs, t)
+			edits = []func(){func() { t.Invokee = g64 }, func() { t.Invokee = g32 }, func() { t.Invokee = g8 }}
 		case "callbr-callee":
 			t := ub.NewCallBr(g32, nil, b1, b2)
 			t.SetName("r")
-			observe(t)
-			t.Callee = g64
+			objs = append(objs, t)
+			edits = []func(){func() { t.Callee = g64 }, func() { t.Callee = g32 }, func() { t.Callee = g8 }}
 		default:
 			c := ub.NewCall(g32)
 			c.SetName("r")
-			observe(c)
-			c.Callee = g64
 			ub.NewBr(b1)
+			objs = append(objs, c)
+			edits = []func(){func() { c.Callee = g64 }, func() { c.Callee = g32 }, func() { c.Callee = g8 }}
 		}
-		return safe(func([]string) string { return hexOut([]byte(m.String())) }, nil)
 	case "add-operands", "icmp-operands", "select-operands", "phi-incoming", "extractvalue-x", "gep-src", "cast-from":
 		p32 := ir.NewParam("p32", types.I32)
 		p64 := ir.NewParam("p64", types.I64)
+		p8 := ir.NewParam("p8", types.I8)
 		agg32 := ir.NewParam("a32", types.NewStruct(types.I32))
 		agg64 := ir.NewParam("a64", types.NewStruct(types.I64))
+		agg8 := ir.NewParam("a8", types.NewStruct(types.I8))
 		ptr32 := ir.NewParam("q32", types.NewPointer(types.NewArray(2, types.I32)))
 		ptr64 := ir.NewParam("q64", types.NewPointer(types.NewArray(2, types.I64)))
+		ptr8 := ir.NewParam("q8", types.NewPointer(types.NewArray(2, types.I8)))
 		cond := ir.NewParam("c", types.I1)
-		user.Params = append(user.Params, p32, p64, agg32, agg64, ptr32, ptr64, cond)
-		user.Sig.Params = []types.Type{types.I32, types.I64, agg32.Typ, agg64.Typ, ptr32.Typ, ptr64.Typ, types.I1}
+		user.Params = append(user.Params, p32, p64, p8, agg32, agg64, agg8, ptr32, ptr64, ptr8, cond)
+		user.Sig.Params = []types.Type{types.I32, types.I64, types.I8, agg32.Typ, agg64.Typ, agg8.Typ, ptr32.Typ, ptr64.Typ, ptr8.Typ, types.I1}
+		var res value.Value
 		switch kind {
 		case "add-operands":
 			i := ub.NewAdd(p32, p32)
 			i.SetName("r")
-			observe(i)
-			i.X, i.Y = p64, p64
-			ub.Insts = append(ub.Insts, &ir.InstFreeze{X: i})
+			objs, res = append(objs, i), i
+			edits = []func(){func() { i.X, i.Y = p64, p64 }, func() { i.X, i.Y = p32, p32 }, func() { i.X, i.Y = p8, p8 }}
 		case "icmp-operands":
+			v32 := ir.NewParam("v32", types.NewVector(2, types.I32))
+			v64 := ir.NewParam("v64", types.NewVector(4, types.I64))
+			user.Params = append(user.Params, v32, v64)
+			user.Sig.Params = append(user.Sig.Params, v32.Typ, v64.Typ)
 			i := ub.NewICmp(1, p32, p32)
 			i.SetName("r")
-			observe(i)
-			i.X, i.Y = p64, p64
-			ub.Insts = append(ub.Insts, &ir.InstFreeze{X: i})
+			objs, res = append(objs, i), i
+			edits = []func(){func() { i.X, i.Y = v32, v32 }, func() { i.X, i.Y = p32, p32 }, func() { i.X, i.Y = v64, v64 }}
 		case "select-operands":
 			i := ub.NewSelect(cond, p32, p32)
 			i.SetName("r")
-			observe(i)
-			i.ValueTrue, i.ValueFalse = p64, p64
-			ub.Insts = append(ub.Insts, &ir.InstFreeze{X: i})
+			objs, res = append(objs, i), i
+			edits = []func(){func() { i.ValueTrue, i.ValueFalse = p64, p64 }, func() { i.ValueTrue, i.ValueFalse = p32, p32 }, func() { i.ValueTrue, i.ValueFalse = p8, p8 }}
 		case "phi-incoming":
 			i := ub.NewPhi(ir.NewIncoming(p32, ub))
 			i.SetName("r")
-			observe(i)
-			i.Incs[0].X = p64
-			ub.Insts = append(ub.Insts, &ir.InstFreeze{X: i})
+			objs, res = append(objs, i), i
+			edits = []func(){func() { i.Incs[0].X = p64 }, func() { i.Incs[0].X = p32 }, func() { i.Incs[0].X = p8 }}
 		case "extractvalue-x":
 			i := ub.NewExtractValue(agg32, 0)
 			i.SetName("r")
-			observe(i)
-			i.X = agg64
-			ub.Insts = append(ub.Insts, &ir.InstFreeze{X: i})
+			objs, res = append(objs, i), i
+			edits = []func(){func() { i.X = agg64 }, func() { i.X = agg32 }, func() { i.X = agg8 }}
 		case "gep-src":
 			zero := constant.NewInt(types.I64, 0)
 			i := ub.NewGetElementPtr(types.NewArray(2, types.I32), ptr32, zero, zero)
 			i.SetName("r")
-			observe(i)
-			i.ElemType, i.Src = types.NewArray(2, types.I64), ptr64
-			ub.Insts = append(ub.Insts, &ir.InstFreeze{X: i})
+			objs, res = append(objs, i), i
+			edits = []func(){func() { i.ElemType, i.Src = types.NewArray(2, types.I64), ptr64 }, func() { i.ElemType, i.Src = types.NewArray(2, types.I32), ptr32 },
+				func() { i.ElemType, i.Src = types.NewArray(2, types.I8), ptr8 }}
 		case "cast-from":
 			i := ub.NewZExt(p32, types.I64)
 			i.SetName("r")
-			observe(i)
-			i.To = types.I128
-			ub.Insts = append(ub.Insts, &ir.InstFreeze{X: i})
+			objs, res = append(objs, i), i
+			edits = []func(){func() { i.To = types.I128 }, func() { i.To = types.I64 }, func() { i.To = types.NewInt(40) }}
 		}
+		use = func() { ub.Insts = append(ub.Insts, &ir.InstFreeze{X: res}) }
 	default:
 		return "unknown-kind"
 	}
-	ub.NewRet(nil)
-	return safe(func([]string) string { return hexOut([]byte(m.String())) }, nil)
+	return safe(func([]string) string {
+		if !early {
+			ub.NewRet(nil)
+		}
+		observe()
+		for k, e := range seq {
+			if e < 0 || e >= len(edits) {
+				return "bad-seq"
+			}
+			edits[e]()
+			if k+1 < len(seq) {
+				observe()
+			}
+		}
+		use()
+		return hexOut([]byte(m.String()))
+	}, nil)
 }
 
 func init() {
 	// C14 oracle on cached-type state: the same construction/edit history prints the same text with and without interleaved pure observers
 	reg("hist.fobs", func(a []string) string {
-		with := fieldHistory(a[0], true)
-		without := fieldHistory(a[0], false)
+		seq := []int{0}
+		if len(a) > 1 {
+			seq = nil
+			for _, t := range strings.Split(a[1], ",") {
+				seq = append(seq, int(atoi64(t)))
+			}
+		}
+		with := fieldHistory(a[0], seq, true)
+		without := fieldHistory(a[0], seq, false)
 		if with == "unknown-kind" {
 			return "FAIL unknown-kind"
 		}
